@@ -78,7 +78,8 @@ CONSTANTS Ids,            \* interface-listener ids (strings)
 VARIABLES ifl,        \* [Ids -> [ifn, port]]  (NoIfl = not added)
           lcorder,    \* sequence of <<id, prefix>> in registration order
           nreg,       \* registration calls so far
-          started, shut,
+          started,    \* Manager.Start was called (no registration afterwards: "must not be called after Start")
+          shut,       \* number of Manager.Shutdown calls (0..2)
           buf,        \* channel buffer size (fixed after Init / Reset)
           q,          \* [EP -> Seq(item number)]   channel buffers
           closed,     \* set of closed endpoints
